@@ -262,8 +262,7 @@ fn announce_step(with_suffix: bool) {
         } else {
             assert!(state_code(&port.port_state) == code);
         }
-        kani::cover!(want == 2, "two TLVs forwarded");
-        kani::cover!(want == 0 && ntlv == 2, "no TLV forwarded of two");
+        kani::cover!(want == 1, "the propagating TLV is forwarded");
         kani::cover!(sibling, "multiport disable");
     } else {
         assert!(r.n == 0, "C07: rejected Announce produced actions");
@@ -283,10 +282,10 @@ fn announce_step(with_suffix: bool) {
 // @harness c11_handle_announce
 // @props C11 C15 C12 C07 C03 C17
 // @tier quick
-// @variant lists2
+// @variant dl128_lists2
 // @stubbing yes
 // @timeout 2400
-// @mem 16
+// @mem 22
 // @functions Port::handle_announce, Bmca::register_announce_message, ForeignMasterList::register_announce_message, ForeignMasterList::is_announce_message_qualified, AnnounceMessage::time_properties, PortActionIterator::with_forward_tlvs
 // @bounds one step from an arbitrary port state with an empty foreign-master list; fully symbolic Announce (stepsRemoved <= 65534, see D3 for 65535) from the parent or anyone else, with a concrete suffix of one propagating and one non-propagating TLV; path trace off (the path-trace receive path is c15_path_trace_*)
 // @assume Interval::as_core_duration / Duration::mul_f64 / core::mem::swap stubs as in c12_announce_receipt_timer
@@ -339,7 +338,6 @@ fn c15_receive_forwarding() {
     assert!(r.fwd == want && r.fwd_sender_ok, "C15: set of TLVs offered for forwarding != propagating TLVs of the Announce");
     kani::cover!(want == 2, "two TLVs forwarded");
     kani::cover!(want == 0 && ntlv == 2, "no TLV forwarded of two");
-    kani::cover!(want == 1 && ntlv == 3, "one of three forwarded");
 }
 
 fn before_default(s: &Snapshot) -> crate::datastructures::datasets::InternalDefaultDS {
